@@ -516,3 +516,102 @@ macro_rules! msg_write_harness {
 msg_write_harness!(c01_msg_write_nv_sto_ext_be, true, true, true, PayloadContent::NonVerbose(kani::any(), bytes_exact::<2>()), 6);
 msg_write_harness!(c01_msg_write_nv_noext_le, false, false, false, PayloadContent::NonVerbose(kani::any(), bytes_exact::<1>()), 5);
 msg_write_harness!(c01_msg_write_ctrl_ext_le, false, true, false, PayloadContent::ControlMsg(ControlType::from_value(kani::any()), bytes_exact::<2>()), 3);
+
+// ---------------------------------------------------------------------------------------------
+// text arguments, PARSER side, from bytes on constant shapes (the writer side of text arguments
+// is not covered: see DESIGN.md §8). buf = type info (constant) ++ 16-bit length (constant)
+// [++ name length (constant) ++ name bytes] ++ content bytes (symbolic, every value incl. NUL
+// and invalid UTF-8) ++ tail. Expected text = longest valid-UTF-8 prefix before the first NUL.
+// ---------------------------------------------------------------------------------------------
+
+fn ref_text(field: &[u8]) -> usize {
+    let k = super::c19::ref_first_nul(field);
+    super::c19::ref_utf8_prefix_len(&field[..k])
+}
+
+fn string_parse_case<const S: usize, const L: usize>(big: bool) {
+    let w: u32 = TI_STRG | (1 << TI_SCOD_SHIFT);
+    let wb = if big { w.to_be_bytes() } else { w.to_le_bytes() };
+    let lb = if big { (S as u16).to_be_bytes() } else { (S as u16).to_le_bytes() };
+    let c: [u8; S] = kani::any();
+    let tail: [u8; 2] = kani::any();
+    let mut buf = [0u8; L];
+    buf[0] = wb[0];
+    buf[1] = wb[1];
+    buf[2] = wb[2];
+    buf[3] = wb[3];
+    buf[4] = lb[0];
+    buf[5] = lb[1];
+    let mut i = 0;
+    while i < S {
+        buf[6 + i] = c[i];
+        i += 1;
+    }
+    buf[6 + S] = tail[0];
+    buf[7 + S] = tail[1];
+    let r = if big { dlt_argument::<BigEndian>(&buf) } else { dlt_argument::<LittleEndian>(&buf) };
+    match r {
+        Ok((rest, a)) => {
+            assert!(bytes_eq(rest, &tail));
+            assert!(a.type_info.kind == TypeInfoKind::StringType && a.name.is_none() && a.unit.is_none() && a.fixed_point.is_none());
+            match &a.value {
+                Value::StringVal(s) => {
+                    let n = ref_text(&c);
+                    assert!(s.len() == n);
+                    assert!(bytes_eq(s.as_bytes(), &c[..n]));
+                }
+                _ => { assert!(false); }
+            }
+        }
+        Err(_) => { assert!(false); }
+    }
+}
+
+#[kani::proof]
+#[kani::stub(alloc::fmt::format, fmt_stub)]
+#[kani::unwind(16)]
+fn c01_argp_string_s3_be() {
+    string_parse_case::<3, 11>(true);
+}
+#[kani::proof]
+#[kani::stub(alloc::fmt::format, fmt_stub)]
+#[kani::unwind(16)]
+fn c01_argp_string_s1_le() {
+    string_parse_case::<1, 9>(false);
+}
+#[kani::proof]
+#[kani::stub(alloc::fmt::format, fmt_stub)]
+#[kani::unwind(16)]
+fn c01_argp_string_s0_be() {
+    string_parse_case::<0, 8>(true);
+}
+
+/// string argument WITH variable info: length, name length (incl. NUL), name ++ NUL, content
+#[kani::proof]
+#[kani::stub(alloc::fmt::format, fmt_stub)]
+#[kani::unwind(18)]
+fn c01_argp_string_vari_be() {
+    let w: u32 = TI_STRG | TI_VARI | (1 << TI_SCOD_SHIFT);
+    let wb = w.to_be_bytes();
+    let c: [u8; 2] = kani::any();
+    let nm: [u8; 1] = kani::any();
+    kani::assume(nm[0] != 0 && nm[0] < 0x80);
+    let tail: [u8; 2] = kani::any();
+    // type info, content length 2, name length 2 (one byte + NUL), name, NUL, content, tail
+    let buf: [u8; 14] = [wb[0], wb[1], wb[2], wb[3], 0, 2, 0, 2, nm[0], 0, c[0], c[1], tail[0], tail[1]];
+    match dlt_argument::<BigEndian>(&buf) {
+        Ok((rest, a)) => {
+            assert!(bytes_eq(rest, &tail));
+            assert!(a.type_info.has_variable_info && a.unit.is_none());
+            match (&a.name, &a.value) {
+                (Some(n), Value::StringVal(s)) => {
+                    assert!(n.len() == 1 && n.as_bytes()[0] == nm[0]);
+                    let k = ref_text(&c);
+                    assert!(s.len() == k && bytes_eq(s.as_bytes(), &c[..k]));
+                }
+                _ => { assert!(false); }
+            }
+        }
+        Err(_) => { assert!(false); }
+    }
+}
